@@ -226,7 +226,7 @@ def run(scn):
         sim.step()
         cyc += 1
         if not cyc & 63 and stuck(sim, cyc):
-            break       # no handshake anywhere for 20000 cycles: the run is stuck, do not spin to the cap
+            break       # no handshake anywhere for 60000 cycles: the run is stuck, do not spin to the cap
         done = aw_d.done() and w_d.done() and ar_d.done() and st["b"] >= len(writes) and st["r"] >= len(rbeats) and mem.idle()
         if done:
             quiet += 1
